@@ -293,7 +293,9 @@ pub fn filters() -> Vec<Filt> {
 }
 
 pub fn cases(tier: Tier) -> Vec<Case> {
-    let paths: Vec<Vec<&str>> = vec![vec!["html"], vec!["html", "body"], vec!["html", "body", "div"], vec!["html", "body", "div", "section"], vec!["html", "head"]];
+    let paths: Vec<Vec<&str>> = vec![vec!["html"], vec!["html", "body"], vec!["html", "body", "div"], vec!["html", "body", "div", "section"], vec!["html", "head"],
+        // the same element name twice in a row, and a repeating pair
+        vec!["html", "body", "div", "div"], vec!["html", "body", "ul", "li", "ul", "li"]];
     let inner_lists = filler_lists(tier.pick(2, 3));
     let side_lists = filler_lists(tier.pick(1, 2));
     let fl = filters();
